@@ -545,14 +545,21 @@ def singleton_init_repeated(kind, y, initialization, iterations):
     D = y.shape[-1]
     full = np.ascontiguousarray(np.broadcast_to(initialization, lead + initialization.shape[-2:]))
     trainer = _mix_trainer(kind, D)
+    # cBMM: the bounded least-squares solver inside the M-step is an external whose result reacts to 1-ulp changes of its input
+    # at the 1e-3 level (DESIGN.md 2.1): its values are recorded in the reference run and replayed for matching inputs
+    tape = ppu.BinghamSolverTape() if kind == 'cbmm' else None
     try:
-        ref = _mix_fit(kind, trainer, y.copy(order='K'), full.copy(order='K'), None, iterations, 'tuple')
+        with (tape.record() if tape else contextlib.nullcontext()):
+            ref = _mix_fit(kind, trainer, y.copy(order='K'), full.copy(order='K'), None, iterations, 'tuple')
         ref_pred = ref.predict(y)
     except (AssertionError, np.linalg.LinAlgError, ValueError, FloatingPointError) as e:
         return Skip(f'repeated affiliation raises {type(e).__name__} ({kind})')
     try:
-        got = _mix_fit(kind, trainer, y.copy(order='K'), initialization.copy(order='K'), None, iterations, 'tuple')
+        with (tape.replay(iterations) if tape else contextlib.nullcontext()):
+            got = _mix_fit(kind, trainer, y.copy(order='K'), initialization.copy(order='K'), None, iterations, 'tuple')
         got_pred = got.predict(y)
+    except ppu.TapeMismatch as e:
+        return Fail('cbmm:singleton-init-scatter-eigenvalues', f'cbmm trainer, singleton initialization: {e}')
     except Exception as e:  # noqa
         return Fail(f'{kind}:singleton-init-raises-{type(e).__name__}',
                     f'{kind} trainer: initialization of shape {initialization.shape} for y {y.shape} raises {type(e).__name__}: {e}')
